@@ -563,6 +563,7 @@ func buildC14Decl(id, site, kind string) *Scenario {
 		ref, expr = fn, ""
 		sc.FuncsSrc = fmt.Sprintf("func %s%s { return %s }\nvar _ = %s\n", fn, sig("conv"), ret("conv"), fn)
 		reject = "unexported function is not accessible from the output package"
+		sc.SeparateOutputOnly = true
 	case "unexported-other-pkg":
 		ref, expr = "vx/ext:fd"+id, ""
 		sc.Files = map[string]string{"ext/ext.go": fmt.Sprintf("package ext\n\nimport \"vx/in\"\nimport \"vx/out\"\n\nvar _ in.P\nvar _ out.P\n\nfunc fd%s%s { return %s }\nvar _ = fd%s\n", id, sig("ext"), ret("ext"), id)}
